@@ -14,9 +14,13 @@ CONTRACTS = dict(w.CONTRACTS)
 CONSTS = dict(w.CONSTS)
 
 
+HELPERS = ["src/transcript.rs", "src/util.rs", "src/proof_system/proof.rs", "src/compiler/verifier.rs", "src/compiler/prover.rs"]
+
+
 def unit(name, file, fn, params, contract, outputs=None, keys=(), **kw):
     kw.setdefault("consts", CONSTS)
     u = Unit(name, file, fn, params, contract, outputs or w.ret, **kw)
+    u.helper_files = HELPERS
     UNITS.append(u)
     for k in keys:
         CONTRACTS[k] = contract
